@@ -201,6 +201,16 @@ def same(impl, model, exact, depth=24):
     return pbx.same(("ok", impl[2], impl[3]), ("ok", model[2], model[3]), exact, depth)
 
 
+def same_scaled(impl, model, exact, scale, depth=48):
+    """like `same`, with the tolerance tied to `scale` (the magnitude of the operands: a history can cancel, e.g. (D - P) - D)"""
+    if exact or impl[0] != "ok" or model[0] != "ok":
+        return same(impl, model, exact, depth)
+    if impl[1] != model[1] or len(impl[2]) != len(model[2]) or len(impl[3]) != len(model[3]):
+        return False
+    tol = F(4 * depth) * F(core.ulp(float(scale)))
+    return all(abs(F(a) - b) <= tol for a, b in zip(impl[2] + impl[3], model[2] + model[3]))
+
+
 def js(t):
     if t is None:
         return None
@@ -460,6 +470,13 @@ def model_batch_par(reqs, workers=None):
     return res
 
 
+def declared_bounds(o):
+    if o[0] == "N":
+        v = float(int(o[1]) if o[2] == "int" else o[1])
+        return ([v] * N, [v] * N)
+    return ([float(o[1])] * N, [float(o[2])] * N)
+
+
 def zero_width_end(b):
     """the lowest or the highest step of the converted operand is a point"""
     return b[0][0] == b[1][0] or b[0][-1] == b[1][-1]
@@ -479,8 +496,10 @@ def divisor_has_zero(op, r):
 
 def check_result(ctx, rng, form, dep, op, l, r, impl, feat, case):
     """semantic oracle on a p-box result of `l op r` under `dep` (real code output `impl`)"""
-    xb, yb = bounds(l), bounds(r)
     lowl, lowr = is_low(l), is_low(r)
+    # a number / interval enters the reference with its DECLARED value, not with what the library converted it to
+    xb = declared_bounds(l) if lowl else bounds(l)
+    yb = declared_bounds(r) if lowr else bounds(r)
     if divisor_has_zero(op, r):
         return
     if lowl or lowr:
@@ -554,12 +573,195 @@ def random_set_check(dep, op, xb, yb, res):
     return None
 
 
+def snap(x):
+    """the numbers an operand object holds (to see that an expression does not change its operands)"""
+    from pyuncertainnumber.pba.pbox_abc import Pbox
+    from pyuncertainnumber.pba.intervals.number import Interval
+    from pyuncertainnumber.pba.dss import DempsterShafer
+    if isinstance(x, Pbox):
+        return ("P", np.asarray(x.left).tobytes(), np.asarray(x.right).tobytes())
+    if isinstance(x, Interval):
+        return ("I", float(x.lo), float(x.hi))
+    if isinstance(x, DempsterShafer):
+        return ("S", np.asarray(x._intervals.lo).tobytes(), np.asarray(x._intervals.hi).tobytes(), np.asarray(x._masses).tobytes())
+    if isinstance(x, (int, float)):
+        return ("N", x)
+    return ("D", repr(getattr(x, "dist_params", None)), getattr(x, "dist_family", None))
+
+
+# ---------------------------------------------------------------------------------------------
+# histories: an operation applied to the result of a mixed-kind operation
+SHAPES = ("L", "R", "S")     # (a op1 b) op2 c ;  a op1 (b op2 c) ;  (a op1 b) op2 a
+
+
+def gen_chains(ctx):
+    rng = ctx.rng
+    out = []
+    signs = ["pos", "neg", "str"]
+    # fixed histories: every shape with a low sub-expression feeding a p-box operation and the reverse
+    I12, Ineg, Dpos, Dstr = ("I", 1, 2), ("I", -3, -1), ("D", "gaussian", [8.0, 1.0]), ("D", "gaussian", [0.5, 1.0])
+    Pw, Sw = ("P", [4] * 100 + [6] * 100, [5] * 100 + [9] * 100), ("S", [[1, 5], [3, 6]], [0.5, 0.5])
+    for dep in DEPS:
+        out.append((dep, "L", "sub", "mul", I12, Ineg, Dstr))          # (I - I) * D : interval calculus first
+        out.append((dep, "L", "add", "div", ("N", 2, "int"), ("N", 3.5, "float"), Pw))   # (2 + 3.5) / P
+        out.append((dep, "R", "sub", "mul", I12, Sw, ("N", -2, "int")))  # I - (S * -2)
+        out.append((dep, "S", "sub", "sub", Dpos, Pw, None))            # (D - P) - D : the operand is used twice
+        out.append((dep, "L", "mul", "sub", Dstr, I12, Sw))             # (D * I) - S
+        out.append((dep, "R", "div", "add", Pw, ("I", -9, -7), Sw))     # P / (I + S) : the divisor is a computed p-box without zero
+    for _ in range(ctx.scale(60, 2000)):
+        sh = rng.choice(SHAPES)
+        dep = rng.choice(DEPS)
+        o1, o2 = rng.choice(OPS), rng.choice(OPS)
+        if sh == "R" and o1 == "div":
+            o1 = rng.choice(["add", "sub", "mul"])      # the divisor would be a computed sub-expression
+        ks = [rng.choice(KINDS) for _ in range(3)]
+        m = 2 if sh == "S" else 3
+        if all(k in LOW for k in ks[:m]):
+            ks[rng.randrange(m)] = rng.choice(["pbox", "dist", "dss"])
+        sg = [rng.choice(signs) for _ in range(3)]
+        # divisors are original operands of one sign
+        if sh == "L":
+            if o1 == "div" and sg[1] == "str": sg[1] = rng.choice(["pos", "neg"])
+            if o2 == "div" and sg[2] == "str": sg[2] = rng.choice(["pos", "neg"])
+        elif sh == "R":
+            if o2 == "div" and sg[2] == "str": sg[2] = rng.choice(["pos", "neg"])
+        else:
+            if o1 == "div" and sg[1] == "str": sg[1] = rng.choice(["pos", "neg"])
+            if o2 == "div" and sg[0] == "str": sg[0] = rng.choice(["pos", "neg"])
+        exact = rng.random() < 0.8
+        a, b, c = (gen_opd(rng, ks[i], sg[i], exact) for i in range(3))
+        out.append((dep, sh, o1, o2, a, b, None if sh == "S" else c))
+    return out
+
+
+def wire_chain(ch):
+    dep, sh, o1, o2, a, b, c = ch
+    return f"chain {N} {dep} {sh} {o1} {o2} {wire_opd(a)} {wire_opd(b)} {wire_opd(a if c is None else c)}"
+
+
+def eval_chain(dep, sh, o1, o2, A, B, C, bare):
+    """the history on native objects (bare operators under the ambient dependency)"""
+    P = pba()
+    f1, f2 = pbx.PYOPS[o1], pbx.PYOPS[o2]
+    try:
+        with warnings.catch_warnings():
+            warnings.simplefilter("ignore")
+            if bare:
+                r = f2(f1(A, B), C) if sh == "L" else f1(A, f2(B, C)) if sh == "R" else f2(f1(A, B), A)
+            else:
+                with P.dependency(dep):
+                    r = f2(f1(A, B), C) if sh == "L" else f1(A, f2(B, C)) if sh == "R" else f2(f1(A, B), A)
+        return canon(r)
+    except BaseException as e:  # noqa
+        return ("err", err_kind(e))
+
+
+def eval_chain_converted(dep, sh, o1, o2, a, b, c):
+    """the same history with every operand converted first; returns (result, failing step description | None)"""
+    x, y = conv_first(a), conv_first(b)
+    z = x if c is None else conv_first(c)
+    steps = {"L": [(o1, x, y), (o2, None, z)], "R": [(o2, y, z), (o1, x, None)], "S": [(o1, x, y), (o2, None, x)]}[sh]
+    prev = None
+    for op, u, v in steps:
+        u = prev if u is None else u
+        v = prev if v is None else v
+        r = run_meth(dep, op, u, v)
+        if r[0] != "ok":
+            ub = ([float(t) for t in u.left], [float(t) for t in u.right])
+            vb = ([float(t) for t in v.left], [float(t) for t in v.right])
+            return r, {"op": op, "sl": pbx.sign_class(*ub)[:3], "sr": pbx.sign_class(*vb)[:3],
+                       "lw0": zero_width_end(ub), "rw0": zero_width_end(vb), "zero_div": op == "div" and (zero_in(*vb) or min(vb[0]) < 0 < max(vb[1]))}
+        prev = pbx.stair(r[2], r[3])
+    return r, None
+
+
+def run_chains(ctx):
+    chains = gen_chains(ctx)
+    both = model_batch_par([wire_chain(ch) for ch in chains] + ["s" + wire_chain(ch) for ch in chains])
+    replies, sreplies = both[:len(chains)], both[len(chains):]
+    rng = ctx.rng
+    for ch, rep, srep in zip(chains, replies, sreplies):
+        dep, sh, o1, o2, a, b, c = ch
+        model = parse_model(rep)
+        smodel = parse_model(srep)
+        ops3 = [a, b] + ([] if c is None else [c])
+        ctx.count(("chain",) + tuple(map(str, ch)), True, "chain")
+        ctx.bump(f"chain:{sh}")
+        A, B = build(a), build(b)
+        C = A if c is None else build(c)
+        before = [snap(A), snap(B), snap(C)]
+        bare = dep == "f" and rng.random() < 0.5
+        impl = eval_chain(dep, sh, o1, o2, A, B, C, bare)
+        after = [snap(A), snap(B), snap(C)]
+        cf, cf_fail = eval_chain_converted(dep, sh, o1, o2, a, b, c)
+        feat = {"form": "chain", "shape": sh, "dep": dep, "op1": o1, "op2": o2, "kinds": "/".join(kind_of(t) for t in ops3)}
+        case = {"form": "chain", "dep": dep, "shape": sh, "op1": o1, "op2": o2, "a": short(a), "b": short(b),
+                "c": None if c is None else short(c), "impl": js(impl)}
+        ctx.sample(case, cap=8)
+        exact = all(exact_opd(t) for t in ops3) and "div" not in (o1, o2)
+        mag = max([1.0] + [abs(v) for t in ops3 for v in (bounds(t)[0][0], bounds(t)[0][-1], bounds(t)[1][0], bounds(t)[1][-1])])
+        if impl[0] == "ok":
+            mag = max([mag] + [abs(v) for v in impl[2] + impl[3]])
+        mag = mag * mag if ("mul" in (o1, o2) or "div" in (o1, o2)) else mag
+        rounding = cf_fail is not None and cf[0] == "err" and cf[1] == "Other" and dep == "f" and cf_fail["op"] in ("mul", "div") \
+            and cf_fail["lw0"] and cf_fail["rw0"] and "str" in (cf_fail["sl"], cf_fail["sr"])
+        zero_div = (cf_fail is not None and cf_fail["zero_div"]) or (impl[0] == "err" and impl[1] == "ZeroDivision")
+        if impl[0] == "nonfinite" or zero_div:
+            ctx.bump("chain:zero-divisor-skipped")
+            continue
+        if impl[0] == "err" and impl[1] == "Other" and model[0] == "ok" and dep == "f":
+            ctx.bump("tie-skipped:rounding-dependent-raise")
+        elif same_scaled(impl, model, exact, mag):
+            ctx.tie_ok()
+        else:
+            ctx.tie_bad("chain", case, js(impl), js(model))
+        # the converted-first history on the real code against the model's `specChain` (the function `chain_agrees` is about)
+        if rounding and smodel[0] == "ok":
+            ctx.bump("tie-skipped:rounding-dependent-raise")
+        elif same_scaled(cf, smodel, exact, mag):
+            ctx.tie_ok()
+        else:
+            ctx.tie_bad("chain-converted", case, js(cf), js(smodel))
+        if before != after:
+            ctx.fail({**feat, "check": "operand-mutated", "symptom": "operand-changed"}, case,
+                     "an operand object was changed by evaluating the expression")
+            continue
+        known_feat = None if not rounding else {"form": "chain", "dep": "f", "op": cf_fail["op"], "symptom": "raises:Other", "lw0": True,
+                                                "rw0": True, "sl": cf_fail["sl"], "sr": cf_fail["sr"], "check": "convert-first-raises"}
+        if impl[0] == "err":
+            ctx.fail(known_feat if (rounding and impl[1] == "Other") else {**feat, "check": "raises", "symptom": "raises:" + impl[1]},
+                     case, f"history raised {impl[1]}")
+            continue
+        if cf[0] != "ok":
+            if rounding:
+                ctx.fail(known_feat, case, "converted-first history raises in the Frechet product of two zero-width-ended operands")
+            else:
+                ctx.fail({**feat, "check": "convert-first-raises", "symptom": "raises:" + str(cf[1])}, case,
+                         f"history with every operand converted first failed: {cf[:2]} at {cf_fail}")
+            continue
+        if impl[1] != "P":
+            ctx.fail({**feat, "check": "result-type", "symptom": "type:" + impl[1]}, case, f"history returned {impl[1]}")
+            continue
+        w = cmp_bounds(impl, fr(cf[2]), fr(cf[3]), F(mag) * 4, "eq")
+        ctx.bump("oracle:chain-convert-first")
+        if w is not None:
+            ctx.fail({**feat, "check": "convert-first-" + w["why"], "symptom": "differs-from-converted"}, {**case, "witness": w},
+                     f"history {sh} ({o1},{o2}) under {dep} differs from the history with every operand converted first: {w}")
+            continue
+        L_, R_ = impl[2], impl[3]
+        if any(x > y for x, y in zip(L_, L_[1:])) or any(x > y for x, y in zip(R_, R_[1:])) or any(x > y for x, y in zip(L_, R_)):
+            ctx.fail({**feat, "check": "ill-formed", "symptom": "ill-formed-result"}, case, "history returned an ill-formed p-box")
+
+
+
 def run(ctx: core.Check):
     core.stub_moments()
     ctx.rule = ("grid: every ordered pair of operand kinds {int,float,Interval,Pbox,Distribution,DempsterShafer} x {+,-,*,/} x ambient "
                 "dependency {f,p,o,i}, operands drawn per sign class (positive / negative / zero-straddling; integer-valued = exact "
                 "stream, or library-constructed = general stream), bare operators; explicit-dependency methods of a p-box / DS structure "
-                "with an operand of any kind; number/interval pairs embedded as p-boxes under every dependency; both conversion functions. "
+                "with an operand of any kind; number/interval pairs embedded as p-boxes under every dependency; both conversion functions; "
+                "histories (a op1 b) op2 c, a op1 (b op2 c), (a op1 b) op2 a over all kinds (the result of one expression is an operand of "
+                "the next, the same operand object used twice), compared with the history on converted operands; operands must come out unchanged. "
                 "Non-trivial = not (number op number); distinct on (form, dependency, operation, operands).")
     ctx.assumptions = ["a Distribution operand is represented by the quantile list its to_pbox() returns (scipy ppf values are parameters); "
                        "a DempsterShafer operand by the p-box of its to_pbox() (C08's subject)",
@@ -568,7 +770,8 @@ def run(ctx: core.Check):
                        "division by an operand containing zero is outside the property (tie on the error kind / returned bounds only)",
                        "a raise that depends on binary64 rounding (imposition of two coinciding zero-width bounds, KF-C07-frechet-precise-"
                        "straddle-rounding) cannot be mirrored by the exact model: those cases are excluded from the tie count and reported by the oracle"]
-    ctx.lean_stage(["Pun.Lemmas.Hier", "Pun.Props.C07"])
+    ctx.lean_stage(["Pun.Lemmas.Hier", "Pun.Lemmas.HierComm", "Pun.Lemmas.HierScale", "Pun.Lemmas.HierTotal",
+                    "Pun.Props.C07", "Pun.Props.C07Route", "Pun.Props.C07Chain"])
     cases = gen_cases(ctx)
     replies = model_batch_par([wire(c) for c in cases])
     rng = ctx.rng
@@ -585,6 +788,7 @@ def run(ctx: core.Check):
         ctx.bump(f"dep:{dep}")
         exact = exact_opd(l) and exact_opd(r) and op != "div"
         L, R = build(l), build(r)
+        before = (snap(L), snap(R))
         if form == "expr":
             bare = dep == "f" and rng.random() < 0.5
             if bare:
@@ -594,6 +798,7 @@ def run(ctx: core.Check):
             impl = run_meth(dep, op, L, R)
         else:  # spec: every operand converted first, on the real code
             impl = run_meth(dep, op, conv_first(l), conv_first(r))
+        mutated = before != (snap(L), snap(R))
         feat = {"form": form, "op": op, "dep": dep, "lkind": kl, "rkind": kr,
                 "sl": pbx.sign_class(*bounds(l))[:3], "sr": pbx.sign_class(*bounds(r))[:3],
                 "lw0": zero_width_end(bounds(l)), "rw0": zero_width_end(bounds(r))}
@@ -613,6 +818,10 @@ def run(ctx: core.Check):
         else:
             ctx.tie_bad(stream, case, js(impl), js(model))
         # ---- oracle ------------------------------------------------------------------------
+        if mutated:
+            ctx.fail({**feat, "check": "operand-mutated", "symptom": "operand-changed"}, case,
+                     f"{kl} {op} {kr}: an operand object was changed by evaluating the expression")
+            continue
         if dep == "u":
             if impl[0] != "err" and not is_low(r):
                 ctx.fail({**feat, "check": "unknown-dependency", "symptom": "answered"}, case, "unknown dependency code answered")
@@ -655,6 +864,7 @@ def run(ctx: core.Check):
                              f"step {w.get('step')} {w['why']} {w.get('reported')} vs {w.get('reference')}")
                     continue
         check_result(ctx, rng, form, dep, op, l, r, impl, feat, case)
+    run_chains(ctx)
 
 
 def run_conv_case(ctx, c, model):
